@@ -202,6 +202,8 @@ def run_case(case):
 
     a = [strip_comment_line(x) for x in body.strip().split("\n")]
     b = [strip_comment_line(x) for x in plain["out"].strip().split("\n")]
+    if a and b:
+        a[-1], b[-1] = a[-1].rstrip(), b[-1].rstrip()     # white space at the very end of the text is not significant
     if a != b:
         diff = [(x, y) for x, y in zip(a, b) if x != y][:3]
         v("C13/user-text-altered", diff=diff, lens=(len(a), len(b)))
